@@ -13,7 +13,8 @@ real code), a field for the theorems of `Andes/Props/C11.lean`.  No Mathlib impo
 
 Quirks of the real code that are reproduced on purpose:
 * `Group.set` writes the array element directly and does NOT propagate a time constant to `dae.Tf`/`Teye`;
-* `io.json` exports the cached `df_in` snapshot without refreshing it (xlsx refreshes);
+* `io.json` and `io.xlsx` both refresh `cache.df_in` before writing (the json writer did not on the pinned
+  tree: finding `json-export-stale`, repaired);
 * `alter(attr='vin')`, `set(attr='vin')` and `System.reset` raise `TypeError` before set-up (`vin is None`);
 * `set` changes one representation only.
 -/
@@ -273,12 +274,12 @@ def next (m : Mdl α) (op : Op α) : Mdl α :=
                        addressed := m.inTds, tdsInit := true }
     { m1 with cache := if m.inPflow || m.inTds then some (exportNow m1) else m.cache }
   | .dumpXlsx => { m with cache := some (exportNow m) }
-  | .dumpJson => { m with cache := some (m.cache.getD (exportNow m)) }
+  | .dumpJson => { m with cache := some (exportNow m) }
 
 /-- what a dump operation writes for this model -/
 def written (m : Mdl α) : Op α → Option (List (List α))
   | .dumpXlsx => some (exportNow m)
-  | .dumpJson => some (m.cache.getD (exportNow m))
+  | .dumpJson => some (exportNow m)
   | _ => none
 
 def run (m : Mdl α) (ops : List (Op α)) : Mdl α := ops.foldl next m
